@@ -64,6 +64,9 @@ func close(a, b float64) bool {
 	return math.Abs(a-b) <= 1e-9*math.Max(1, math.Max(math.Abs(a), math.Abs(b)))
 }
 
+// valueShift is added to every value fed (0 normally): statistics of shifted values are the shifted statistics, the deviation is unchanged
+var valueShift float64
+
 func feed(a *statsd.MetricAggregator, c *tcase, tags gostatsd.Tags, rng *vh.Rng) {
 	// seeded arrival order, 1..3 batches
 	order := make([]int, len(c.Vals))
@@ -86,7 +89,7 @@ func feed(a *statsd.MetricAggregator, c *tcase, tags gostatsd.Tags, rng *vh.Rng)
 		}
 	}
 	for _, i := range order {
-		m := &gostatsd.Metric{Name: "t", Type: gostatsd.TIMER, Value: float64(c.Vals[i]), Rate: 1 / float64(c.Invs[i]), Tags: tags.Copy(), Timestamp: 10, Source: "s"}
+		m := &gostatsd.Metric{Name: "t", Type: gostatsd.TIMER, Value: float64(c.Vals[i]) + valueShift, Rate: 1 / float64(c.Invs[i]), Tags: tags.Copy(), Timestamp: 10, Source: "s"}
 		maps[rng.Intn(nb)].Receive(m)
 	}
 	for _, mm := range maps {
@@ -195,6 +198,30 @@ func TestCases(t *testing.T) {
 				} {
 					if !close(f.got, f.want) {
 						fail(f.name, "%s=%v want %v", f.name, f.got, f.want)
+					}
+				}
+				if idx%5 == 2 {
+					// the same values far from zero (epoch milliseconds are like that): every statistic moves with them, the spread stays
+					const shift = 1e9
+					valueShift = shift
+					b := statsd.NewMetricAggregator(nil, 0, 0, 0, 0, gostatsd.TimerSubtypes{}, 1000)
+					feed(b, &c, nil, rng)
+					valueShift = 0
+					b.Flush(interval)
+					st, sn := theTimer(b)
+					res.Hit("shifted-values")
+					if sn == 1 {
+						for _, f := range []struct {
+							name      string
+							got, want float64
+						}{
+							{"min", st.Min, float64(exp.Min) + shift}, {"max", st.Max, float64(exp.Max) + shift}, {"mean", st.Mean, float64(exp.Sum)/nf + shift},
+							{"median", st.Median, float64(exp.Med2)/2 + shift}, {"stddev", st.StdDev, math.Sqrt(float64(exp.VarNum)) / nf},
+						} {
+							if math.Abs(f.got-f.want) > 1e-4 {
+								fail(f.name+"-shifted", "values + 1e9: %s=%v want %v", f.name, f.got, f.want)
+							}
+						}
 					}
 				}
 			}
